@@ -187,21 +187,34 @@ impl<'tcx> Ex<'tcx> {
     fn span(&mut self, sp: Span, snippet: bool) -> String {
         let sm = self.tcx.sess.source_map();
         let exp = if sp.from_expansion() {
-            let d = sp.ctxt().outer_expn_data();
-            let (k, n) = match d.kind {
-                ExpnKind::Root => ("root", String::new()),
-                ExpnKind::Macro(mk, name) => (
-                    match mk {
-                        rustc_span::MacroKind::Bang => "bang",
-                        rustc_span::MacroKind::Attr => "attr",
-                        rustc_span::MacroKind::Derive => "derive",
-                    },
-                    name.to_string(),
-                ),
-                ExpnKind::AstPass(_) => ("astpass", String::new()),
-                ExpnKind::Desugaring(dk) => ("desugar", format!("{:?}", dk)),
-            };
-            format!("[{},{}]", esc(k), esc(&n))
+            // chain of expansions, innermost first
+            let mut chain = Vec::new();
+            let mut cur = sp;
+            let mut guard = 0;
+            while cur.from_expansion() && guard < 12 {
+                let d = cur.ctxt().outer_expn_data();
+                let (k, n) = match d.kind {
+                    ExpnKind::Root => ("root", String::new()),
+                    ExpnKind::Macro(mk, name) => (
+                        match mk {
+                            rustc_span::MacroKind::Bang => "bang",
+                            rustc_span::MacroKind::Attr => "attr",
+                            rustc_span::MacroKind::Derive => "derive",
+                        },
+                        name.to_string(),
+                    ),
+                    ExpnKind::AstPass(_) => ("astpass", String::new()),
+                    ExpnKind::Desugaring(dk) => ("desugar", format!("{:?}", dk)),
+                };
+                let mk = match d.macro_def_id {
+                    Some(m) => self.tcx.crate_name(m.krate).to_string(),
+                    None => String::new(),
+                };
+                chain.push(format!("[{},{},{}]", esc(k), esc(&n), esc(&mk)));
+                cur = d.call_site;
+                guard += 1;
+            }
+            jlist(&chain)
         } else {
             "null".to_string()
         };
